@@ -127,7 +127,10 @@ theorem ceHyps_of_maxLen (hS : SegmentsFacts) (data : List Byte) (w ws mm maxM :
     exact this
   · intro hmm
     obtain ⟨cbs, h1, h2⟩ := hS (ceT data w ws) mm (ceMaxLen data w ws maxM) hmm hmax
-    exact ⟨cbs, h1, h2⟩
+    refine ⟨cbs, ?_, h2⟩
+    unfold ceSegs segments32
+    rw [if_neg (by omega)]
+    exact h1
 
 /-- **`CEHyps` holds** — the named hypothesis of `computeEdges_sound/_complete` and `C11_optimal*` —
     for every buffer of at most `MaxInt32` bytes (any window head, window size, `MinMatchLen`,
@@ -143,13 +146,9 @@ theorem ceHyps_of_segFacts (hS : SegmentsFacts) (data : List Byte) (w ws mm maxM
     stays empty -/
 theorem ceSegs_none_of_big (data : List Byte) (w ws mm maxM : Nat)
     (hbig : ¬ ceMaxLen data w ws maxM ≤ 2147483647) : ceSegs data w ws mm maxM = none := by
-  unfold ceSegs segments
-  split
-  · rfl
-  · split
-    · rfl
-    · rw [if_pos]
-      omega
+  unfold ceSegs segments32
+  rw [if_pos]
+  omega
 
 /-- **Soundness of `computeEdges`, unconditionally** (relative to `SegmentsFacts` only): every
     edge stored for a block position is a genuine match inside the window.  No bound on the buffer
